@@ -2,6 +2,7 @@ package main
 
 import (
 	"fmt"
+	"os"
 	"go/constant"
 	"go/types"
 	"sort"
@@ -29,6 +30,12 @@ type chSite struct {
 	// Pin: other tags of the same enum type, selected by a constant they are
 	// compared with, are pinned to a constant: {comparedWith, assumedValue}.
 	Pin [][2]string
+	// AssumeBoolParam pins boolean parameters by name.
+	AssumeBoolParam map[string]bool
+	// Variant distinguishes several runs of the same site (appears in the construct key).
+	Variant string
+	// Only restricts the constants for which obligations are generated (nil = all).
+	Only func(name string) bool
 }
 
 func (s *chSite) fnName() string {
@@ -110,6 +117,19 @@ func runCHSite(r *Run, s *chSite) {
 		}
 		extra[t2] = consts[pin[1]]
 	}
+	for name, val := range s.AssumeBoolParam {
+		found := false
+		for _, prm := range fn.Params {
+			if prm.Name() == name {
+				extra[prm] = constant.MakeBool(val)
+				found = true
+			}
+		}
+		if !found {
+			r.Ob(s.Rule, shortRel(s.Rel)+"."+s.fnName(), s.Claim).Undecide(r.pos(fn.Pos()), "no parameter %q", name)
+			return
+		}
+	}
 	cases := casesOf(fn, tag, consts, extra, nil)
 	r.count("ch_cases", len(cases))
 	for _, cr := range cases {
@@ -120,7 +140,10 @@ func runCHSite(r *Run, s *chSite) {
 		if !listed {
 			want = s.Other
 		}
-		construct := shortRel(s.Rel) + "." + s.fnName() + "[" + cr.Const + "]"
+		if s.Only != nil && !s.Only(cr.Const) {
+			continue
+		}
+		construct := shortRel(s.Rel) + "." + s.fnName() + s.Variant + "[" + cr.Const + "]"
 		o := r.Ob(s.Rule, construct, s.Claim+": "+cr.Const+" -> "+want)
 		if !listed {
 			o.Trivial = true
@@ -130,6 +153,9 @@ func runCHSite(r *Run, s *chSite) {
 			continue
 		}
 		got := s.Outcome(r, fn, cr)
+		if os.Getenv("VERIF_DUMP") != "" {
+			fmt.Printf("DUMP %s = %s\n", construct, got)
+		}
 		if got == want {
 			o.OK("outcome %s", got).At(r.pos(fn.Pos()))
 		} else {
@@ -319,3 +345,277 @@ func ruleCHParseOps(r *Run) {
 }
 
 var _ = fmt.Sprintf
+
+// outReturn2: results #0 and #1 together.
+func outReturn2(enumRel, enumType string) func(r *Run, fn *ssa.Function, cr caseResult) string {
+	f0 := outReturn(0, enumRel, enumType)
+	f1 := outReturn(1, "", "")
+	return func(r *Run, fn *ssa.Function, cr caseResult) string {
+		return f0(r, fn, cr) + "," + f1(r, fn, cr)
+	}
+}
+
+// outCalls: which of the named first-party functions/methods are called on the feasible paths.
+func outCalls(names ...string) func(r *Run, fn *ssa.Function, cr caseResult) string {
+	return func(r *Run, fn *ssa.Function, cr caseResult) string {
+		set := map[string]bool{}
+		for _, e := range cr.Ends {
+			hit := false
+			for _, c := range e.State.calls {
+				callee := staticCallee(c.Call)
+				if callee == nil {
+					continue
+				}
+				n := callee.Name()
+				for _, want := range names {
+					if n == want {
+						set[n] = true
+						hit = true
+					}
+				}
+			}
+			if !hit {
+				if isErr, known := endReturnsError(e); known && isErr {
+					set["error"] = true
+				} else {
+					set["none"] = true
+				}
+			}
+		}
+		return joinSet(set)
+	}
+}
+
+// outStoredIfaceTypes: the concrete types converted to the given interface on the feasible paths.
+func outStoredIfaceTypes(iface string) func(r *Run, fn *ssa.Function, cr caseResult) string {
+	return func(r *Run, fn *ssa.Function, cr caseResult) string {
+		set := map[string]bool{}
+		for _, e := range cr.Ends {
+			n := 0
+			for _, b := range e.State.trail {
+				for _, in := range b.Instrs {
+					mi, ok := in.(*ssa.MakeInterface)
+					if !ok || typeKey(mi.Type()) != iface {
+						continue
+					}
+					set[shortType(mi.X.Type())] = true
+					n++
+				}
+			}
+			if n == 0 {
+				if isErr, known := endReturnsError(e); known && isErr {
+					set["error"] = true
+				} else {
+					set["none"] = true
+				}
+			}
+		}
+		return joinSet(set)
+	}
+}
+
+func parseSites2() []*chSite {
+	tt := [2]string{lexerPkg, "TokenType"}
+	rangeToks := tokOp("CountOverTime", "RangeOpCount", "Rate", "RangeOpRate", "RateCounter", "RangeOpRateCounter",
+		"BytesOverTime", "RangeOpBytes", "BytesRate", "RangeOpBytesRate", "AvgOverTime", "RangeOpAvg", "SumOverTime", "RangeOpSum",
+		"MinOverTime", "RangeOpMin", "MaxOverTime", "RangeOpMax", "StdvarOverTime", "RangeOpStdvar", "StddevOverTime", "RangeOpStddev",
+		"QuantileOverTime", "RangeOpQuantile", "FirstOverTime", "RangeOpFirst", "LastOverTime", "RangeOpLast", "AbsentOverTime", "RangeOpAbsent")
+	vecToks := tokOp("Sum", "VectorOpSum", "Avg", "VectorOpAvg", "Count", "VectorOpCount", "Max", "VectorOpMax", "Min", "VectorOpMin",
+		"Stddev", "VectorOpStddev", "Stdvar", "VectorOpStdvar", "Bottomk", "VectorOpBottomk", "Topk", "VectorOpTopk",
+		"Sort", "VectorOpSort", "SortDesc", "VectorOpSortDesc")
+	route := map[string]string{"OpenParen": "parseExpr", "Number": "parseLiteralExpr", "Add": "parseLiteralExpr", "Sub": "parseLiteralExpr",
+		"LabelReplace": "parseLabelReplace", "Vector": "parseVectorExpr"}
+	for k := range rangeToks {
+		route[k] = "parseRangeAggregationExpr"
+	}
+	for k := range vecToks {
+		route[k] = "parseVectorAggregationExpr"
+	}
+	binops := tokOp("Or", "OpOr,true", "And", "OpAnd,true", "Unless", "OpUnless,true", "Add", "OpAdd,true", "Sub", "OpSub,true",
+		"Mul", "OpMul,true", "Div", "OpDiv,true", "Mod", "OpMod,true", "Pow", "OpPow,true", "CmpEq", "OpEq,true", "NotEq", "OpNotEq,true",
+		"Gt", "OpGt,true", "Gte", "OpGte,true", "Lt", "OpLt,true", "Lte", "OpLte,true")
+	stages := tokOp("JSON", "*logql.JSONExpressionParser", "Logfmt", "*logql.LogfmtExpressionParser", "Regexp", "*logql.RegexpLabelParser",
+		"Pattern", "*logql.PatternLabelParser", "Unpack", "*logql.UnpackLabelParser", "LineFormat", "*logql.LineFormat",
+		"Decolorize", "*logql.DecolorizeExpr", "Ident", "*logql.LabelFilter", "OpenParen", "*logql.LabelFilter",
+		"LabelFormat", "*logql.LabelFormatExpr", "Keep", "*logql.KeepLabelsExpr", "Drop", "*logql.DropLabelsExpr", "Distinct", "*logql.DistinctFilter")
+	withErr := func(m map[string]string) map[string]string {
+		out := map[string]string{}
+		for k, v := range m {
+			out[k] = v + "|error"
+		}
+		return out
+	}
+	stagesNoUnwrap := withErr(stages)
+	stagesNoUnwrap["Unpack"] = "*logql.UnpackLabelParser"
+	stagesNoUnwrap["Decolorize"] = "*logql.DecolorizeExpr"
+	stagesUnwrap := map[string]string{}
+	for k, v := range stagesNoUnwrap {
+		stagesUnwrap[k] = v
+	}
+	stagesUnwrap["Unwrap"] = "none"
+	return []*chSite{
+		{Rule: "CH-MAP", Rel: logqlPkg, Recv: "*parser", Fn: "peekBinOp", TagType: tt, TagConst: "Or",
+			Outcome: outReturn2(logqlPkg, "BinOp"), Expected: binops, Other: "<0>,false",
+			Claim: "binary operator token maps to the operator it spells"},
+		{Rule: "CH-MAP", Rel: logqlPkg, Recv: "*parser", Fn: "parseRangeAggregationExpr", TagType: tt, TagConst: "CountOverTime",
+			Outcome: outFieldConst(logqlPkg, "RangeOp", "Op", "RangeAggregationExpr"), Expected: withErrOnlyIfNeeded(rangeToks), Other: "",
+			Only:  func(n string) bool { _, ok := rangeToks[n]; return ok },
+			Claim: "range aggregation function token maps to the range operation it spells"},
+		{Rule: "CH-MAP", Rel: logqlPkg, Recv: "*parser", Fn: "parseVectorAggregationExpr", TagType: tt, TagConst: "Sum",
+			Outcome: outFieldConst(logqlPkg, "VectorOp", "Op", "VectorAggregationExpr"), Expected: vecToks, Other: "",
+			Only:  func(n string) bool { _, ok := vecToks[n]; return ok },
+			Pin:   [][2]string{},
+			Claim: "vector aggregation function token maps to the vector operation it spells"},
+		{Rule: "CH-MAP", Rel: logqlPkg, Recv: "*parser", Fn: "parseMetricExpr1", TagType: tt, TagConst: "OpenParen",
+			Outcome: outCalls("parseExpr", "parseRangeAggregationExpr", "parseVectorAggregationExpr", "parseLiteralExpr", "parseLabelReplace", "parseVectorExpr"),
+			Expected: route, Other: "error",
+			Claim: "a metric expression starting with this token is parsed by the matching production"},
+		{Rule: "CH-MAP", Rel: logqlPkg, Recv: "*parser", Fn: "parsePipeline", TagType: tt, TagConst: "JSON",
+			Pin: [][2]string{{"Pipe", "Pipe"}}, AssumeBoolParam: map[string]bool{"allowUnwrap": false}, Variant: "{allowUnwrap=false}",
+			Outcome: outStoredIfaceTypes("PipelineStage"), Expected: stagesNoUnwrap, Other: "error",
+			Claim: "the token after | selects the stage it names; | unwrap in a log query is an error"},
+		{Rule: "CH-MAP", Rel: logqlPkg, Recv: "*parser", Fn: "parsePipeline", TagType: tt, TagConst: "JSON",
+			Pin: [][2]string{{"Pipe", "Pipe"}}, AssumeBoolParam: map[string]bool{"allowUnwrap": true}, Variant: "{allowUnwrap=true}",
+			Outcome: outStoredIfaceTypes("PipelineStage"), Expected: stagesUnwrap, Other: "error",
+			Claim: "the token after | selects the stage it names; | unwrap ends the pipeline of a range expression"},
+	}
+}
+
+func withErrOnlyIfNeeded(m map[string]string) map[string]string { return m }
+
+func ruleCHParseSites2(r *Run) {
+	for _, s := range parseSites2() {
+		runCHSite(r, s)
+	}
+}
+
+// outClosureReturnType: result #0 is a closure; report the concrete types its returns build.
+func outClosureReturnType() func(r *Run, fn *ssa.Function, cr caseResult) string {
+	return func(r *Run, fn *ssa.Function, cr caseResult) string {
+		set := map[string]bool{}
+		for _, e := range cr.Ends {
+			if isErr, known := endReturnsError(e); known && isErr {
+				set["error"] = true
+				continue
+			}
+			if len(e.Results) == 0 {
+				set["?"] = true
+				continue
+			}
+			var cfn *ssa.Function
+			switch x := e.Results[0].V.(type) {
+			case *ssa.MakeClosure:
+				cfn = x.Fn.(*ssa.Function)
+			case *ssa.Function:
+				cfn = x
+			}
+			if cfn == nil {
+				set[describeBuilt(e.Results[0].V)] = true
+				continue
+			}
+			for _, ret := range returnsOf(cfn) {
+				for _, lv := range phiLeaves(ret.Results[0]) {
+					set[describeBuilt(lv)] = true
+				}
+			}
+		}
+		return joinSet(set)
+	}
+}
+
+// outFieldFuncs: describe the values stored into several fields on success paths: "f1=..,f2=..".
+func outFieldDesc(fields ...string) func(r *Run, fn *ssa.Function, cr caseResult) string {
+	return func(r *Run, fn *ssa.Function, cr caseResult) string {
+		set := map[string]bool{}
+		for _, e := range cr.Ends {
+			if isErr, known := endReturnsError(e); known && isErr {
+				set["error"] = true
+				continue
+			}
+			var parts []string
+			if len(e.Results) > 0 {
+				parts = append(parts, describeBuilt(e.Results[0].V))
+			}
+			for _, f := range fields {
+				vals := fieldStores(e, f)
+				if len(vals) == 0 {
+					continue
+				}
+				v := vals[len(vals)-1]
+				parts = append(parts, f+"="+describeBuilt(v.V))
+			}
+			set[strings.Join(parts, ";")] = true
+		}
+		return joinSet(set)
+	}
+}
+
+func builderSites() []*chSite {
+	op := [2]string{logqlPkg, "BinOp"}
+	cmpT := func(prefix, elem string) map[string]string {
+		m := map[string]string{}
+		for _, c := range []string{"Eq", "NotEq", "Gt", "Gte", "Lt", "Lte"} {
+			m["Op"+c] = "type:*logqlengine." + prefix + "[logqlengine." + c + "Comparator[" + elem + "]]"
+		}
+		return m
+	}
+	return []*chSite{
+		{Rule: "CH-MAP", Rel: enginePkg, Fn: "buildStringMatcher", TagType: op, TagConst: "OpEq",
+			AssumeBoolParam: map[string]bool{"label": true}, Variant: "{label=true}",
+			Outcome: outReturn(0, "", ""),
+			Expected: map[string]string{
+				"OpEq":    "type:logqlengine.EqualsMatcher",
+				"OpNotEq": "type:logqlengine.NotMatcher[string,logqlengine.EqualsMatcher]",
+				"OpRe":    "error|type:logqlengine.RegexpMatcher",
+				"OpNotRe": "error|type:logqlengine.NotMatcher[string,logqlengine.RegexpMatcher]"},
+			Other: "error", Claim: "label string matcher implements the operator (negated forms wrap the positive matcher in NotMatcher)"},
+		{Rule: "CH-MAP", Rel: enginePkg, Fn: "buildStringMatcher", TagType: op, TagConst: "OpEq",
+			AssumeBoolParam: map[string]bool{"label": false}, Variant: "{label=false}",
+			Outcome: outReturn(0, "", ""),
+			Expected: map[string]string{
+				"OpEq":    "type:logqlengine.ContainsMatcher",
+				"OpNotEq": "type:logqlengine.NotMatcher[string,logqlengine.ContainsMatcher]",
+				"OpRe":    "error|type:logqlengine.RegexpMatcher",
+				"OpNotRe": "error|type:logqlengine.NotMatcher[string,logqlengine.RegexpMatcher]"},
+			Other: "error", Claim: "line string matcher implements the operator (negated forms wrap the positive matcher in NotMatcher)"},
+		{Rule: "CH-MAP", Rel: enginePkg, Fn: "buildDurationLabelFilter", TagType: op, TagConst: "OpEq",
+			Outcome: outReturn(0, "", ""), Expected: cmpT("DurationLabelFilter", "time.Duration"), Other: "error",
+			Claim: "duration label filter is instantiated with the comparator of its operator"},
+		{Rule: "CH-MAP", Rel: enginePkg, Fn: "buildBytesLabelFilter", TagType: op, TagConst: "OpEq",
+			Outcome: outReturn(0, "", ""), Expected: cmpT("BytesLabelFilter", "uint64"), Other: "error",
+			Claim: "bytes label filter is instantiated with the comparator of its operator"},
+		{Rule: "CH-MAP", Rel: enginePkg, Fn: "buildNumberLabelFilter", TagType: op, TagConst: "OpEq",
+			Outcome: outReturn(0, "", ""), Expected: cmpT("NumberLabelFilter", "float64"), Other: "error",
+			Claim: "number label filter is instantiated with the comparator of its operator"},
+		{Rule: "CH-MAP", Rel: enginePkg, Fn: "buildIPMatcher", TagType: op, TagConst: "OpEq",
+			Outcome: outReturn(0, "", ""),
+			Expected: map[string]string{
+				"OpEq":    "error|type:logqlengine.EqualIPMatcher|type:logqlengine.PrefixIPMatcher|type:logqlengine.RangeIPMatcher",
+				"OpNotEq": "error|type:logqlengine.NotMatcher[netip.Addr,logqlengine.EqualIPMatcher]|type:logqlengine.NotMatcher[netip.Addr,logqlengine.PrefixIPMatcher]|type:logqlengine.NotMatcher[netip.Addr,logqlengine.RangeIPMatcher]"},
+			Other: "error", Claim: "ip matcher implements = and != (negated forms wrap the positive matcher in NotMatcher)"},
+		{Rule: "CH-MAP", Rel: enginePkg, Fn: "buildLabelPredicate", TagType: op, TagConst: "OpAnd",
+			Outcome: onlyPrefix(outReturn(0, "", ""), "type:"),
+			Expected: map[string]string{"OpAnd": "type:*logqlengine.AndLabelMatcher", "OpOr": "type:*logqlengine.OrLabelMatcher"},
+			Only:  func(n string) bool { return n == "OpAnd" || n == "OpOr" || n == "OpUnless" || n == "<other>" },
+			Other: "", Claim: "and/or predicate builds the matching composite"},
+	}
+}
+
+func ruleCHBuilders(r *Run) {
+	for _, s := range builderSites() {
+		runCHSite(r, s)
+	}
+}
+
+// onlyPrefix keeps the outcome atoms with the given prefix.
+func onlyPrefix(f func(r *Run, fn *ssa.Function, cr caseResult) string, prefix string) func(r *Run, fn *ssa.Function, cr caseResult) string {
+	return func(r *Run, fn *ssa.Function, cr caseResult) string {
+		var keep []string
+		for _, a := range strings.Split(f(r, fn, cr), "|") {
+			if strings.HasPrefix(a, prefix) {
+				keep = append(keep, a)
+			}
+		}
+		return strings.Join(keep, "|")
+	}
+}
